@@ -161,7 +161,8 @@ func (g *Generator) NewSchemaRefForValue(value any, schemas openapi3.Schemas) (*
 			if v, ok := own[refName]; ok {
 				value = v
 			}
-			if value != nil && (value.Properties != nil || value.Items != nil || value.AdditionalProperties.Schema != nil) {
+			// (the schema of a struct without fields is empty, and a component all the same: it is referred to)
+			if _, isOwn := own[refName]; value != nil && (isOwn || value.Properties != nil || value.Items != nil || value.AdditionalProperties.Schema != nil) {
 				schemas[refName] = &openapi3.SchemaRef{
 					Value: value,
 				}
